@@ -1116,6 +1116,8 @@ template <class C> static void lattice_round(Tape &t, CaseCtx &ctx) {
     default: break;
     }
   } catch (const verif::crab_error &e) {
+    // the lattice operations and the inclusion/equality tests are total: raising instead of answering is a failure
+    SCHECK(ctx, false, base + "_raised_crab_error", "operands " << C::str(a) << " , " << C::str(b) << " : " << e.what());
     R().diag("crab_error:" + base);
     ctx.log << " CRAB_ERROR: " << e.what() << "\n";
     return;
